@@ -537,6 +537,9 @@ class dir_archive(archive):
         # first hide the directory under a 'temporary' name (atomically), so
         # an entry is never seen while it is only partially removed
         _tmp = self._getdir(TEMP+hash(random(), 'md5'))
+        # the hidden name may be left over from a removal or store that was
+        # killed (same name drawn again after random.seed): clear it first
+        if os.path.isdir(_tmp): shutil.rmtree(_tmp, ignore_errors=True)
         try: os.rename(_dir, _tmp)
         except OSError: _tmp = _dir
         rmtree(_tmp, self=True, ignore_errors=True)
